@@ -36,6 +36,7 @@ def resultTag : List String → String
   | "err" :: "end" :: _ => "err-end"
   | "err" :: "invalid" :: _ => "err-invalid"
   | "err" :: "oob" :: k :: _ => "err-oob-" ++ k
+  | "err" :: "io" :: _ => "err-io"
   | _ => "panic"
 
 /-- Spec oracle on the implementation's own output for arbitrary bytes:
@@ -65,6 +66,37 @@ def byteTags (bs : List UInt8) : List String :=
 def optBits : Option UInt32 → List String
   | some b => ["some", canonBits b]
   | none => ["none"]
+
+/-- `Display for Error` (io.rs:256-271) as UTF-8 bytes; the `char` of `UnsupportedItem` is below U+0100. -/
+def displayBytes : Err → List UInt8
+  | .unsupportedItem c =>
+    "unsupported item type '".toUTF8.toList ++
+      (if c < 0x80 then [UInt8.ofNat c] else [UInt8.ofNat (0xC0 + c / 64), UInt8.ofNat (0x80 + c % 64)]) ++ [39]
+  | .unexpectedEnd => "unexpected end of input".toUTF8.toList
+  | .invalidValue => "invalid numeric value".toUTF8.toList
+  | .indexOutOfBounds k i => (kindStr k ++ " index out of bounds: " ++ toString i).toUTF8.toList
+
+/-- Model result with the detail tokens of the reader ops: `| <Display hex> <source() is Some>`. -/
+def renderDetail (r : Outcome (Except Err Mesh)) : List String :=
+  renderModel r ++ (match r with
+    | .ok (.error e) => ["|", bytesToHex (displayBytes e), "0"]
+    | _ => [])
+
+def ioErrTokens : List String :=
+  ["err", "io", "BrokenPipe", "|", bytesToHex "I/O error: boom".toUTF8.toList, "1"]
+
+/-- `read_obj` from a reader that fails after `cut` bytes (io.rs:98-108): the parser pulls bytes
+lazily, line by line; a parse error in a line completed before the failure is returned without the
+reader being touched again, otherwise the I/O error wins over whatever the truncated text gave. -/
+def readFailing (bs : List UInt8) (cut : Nat) : List String :=
+  let pre := bs.take cut
+  let complete := (pre.reverse.dropWhile (· != 10)).reverse     -- up to and including the last '\n'
+  match foldLines ParseF32.parseF32 {} (splitLines complete) with
+  | .ok (.error e) => renderDetail (.ok (.error e))
+  | .panic s => ["panic:" ++ s]
+  | .ok (.ok _) => ioErrTokens
+
+def stripDetail (impl : List String) : List String := impl.takeWhile (· != "|")
 
 def handle (case impl : List String) : Verdict :=
   match case with
@@ -96,6 +128,25 @@ def handle (case impl : List String) : Verdict :=
         v.withSpec ((irest.drop (3 * nv)).take (3 * nf) != wantF) "wellformed-face-mismatch" "faces differ from the written one-based indices minus one"
       | _ => v.withSpec true "wellformed-rejected" s!"well-formed file not accepted: {" ".intercalate (impl.take 4)}"
     | _, _, _ => bad "objw"
+  | [op, arg, hex] =>
+    if op == "objr" || op == "objs" || op == "objf" || op == "objio" then
+      match parseHexBytes? hex with
+      | none => bad "hex"
+      | some bs =>
+        let m := if op == "objio" then readFailing bs (arg.toNat?.getD 0)
+                 else renderDetail (parseObj ParseF32.parseF32 bs)
+        let implC := impl.map canonTok
+        let v := Verdict.ok ([op, resultTag (stripDetail m)] ++ (if m == ioErrTokens then ["io-error"] else []))
+        let v := v.withDiff (implC != m) s!"model {" ".intercalate (m.take 12)}"
+        let v := specTotal v (stripDetail impl)
+        v.withSpec (op == "objio" && impl.head? == some "ok") "io-error-not-reported"
+          "read_obj returned Ok although the reader failed"
+    else bad "unknown op"
+  | ["objmiss", _] =>
+    let m := ["err", "io", "NotFound", "|", "pre", "1"]
+    let v := (Verdict.ok ["objmiss"]).withDiff (impl != m) s!"model {m}"
+    let v := specTotal v (stripDetail impl)
+    v.withSpec (impl.head? != some "err") "missing-file-not-reported" "load_obj of a missing path did not return Err"
   | ["f32", hex] =>
     match parseHexBytes? hex with
     | none => bad "hex"
